@@ -433,7 +433,7 @@ class Middlebox:
     `cut(link, how)`: "rst" = both connections are reset, "fin" = both are closed in an orderly way after what the box had
     already read was passed on (later input is read and discarded), "dark" = nothing passes any more (UDP: the only kind)."""
 
-    def __init__(self, server_port, udp=False):
+    def __init__(self, server_port, udp=False, port=0):
         self.server_port = server_port
         self.udp = udp
         self.links = []
@@ -446,7 +446,7 @@ class Middlebox:
         else:
             self.sock = socket.socket(socket.AF_INET, socket.SOCK_STREAM)
             self.sock.setsockopt(socket.SOL_SOCKET, socket.SO_REUSEADDR, 1)
-        self.sock.bind(("127.0.0.1", 0))
+        self.sock.bind(("127.0.0.1", port))
         self.port = self.sock.getsockname()[1]
         self.sock.setblocking(False)
         self.atask = None
